@@ -122,11 +122,20 @@ def operandFits (byte : Bool) : Operand → Bool
   | .abs v => fits16 v
   | _ => true
 
-/-- every numeric operand of the statement fits its field -/
+/-- the mnemonic is one of the twelve jump mnemonics -/
+def isJumpName (m : String) : Bool :=
+  match kindOf m with
+  | some (.jump _) => true
+  | _ => false
+
+/-- every numeric operand of the statement fits its field: the target of a jump its distance field, every other
+    operand the 16-bit (byte immediate: 8-bit) field -/
 def fits (addr : BitVec 32) (s : Stmt) : Bool :=
-  match kindOf s.mnemonic, s.ops with
-  | some (.jump _), [.symbolic t] => fitsJump addr t
-  | _, ops => ops.all (operandFits (s.size = 8))
+  if isJumpName s.mnemonic then
+    (match s.ops with
+     | [.symbolic t] => fitsJump addr t
+     | ops => ops.all (operandFits (decide (s.size = 8))))
+  else s.ops.all (operandFits (decide (s.size = 8)))
 
 example : meaning ⟨"mov", 16, [.imm 0x1234, .reg 5]⟩ = some (.two .mov false (.imm 0x1234) (.reg 5)) := by decide
 example : meaning ⟨"inc", 8, [.abs 0x200]⟩ = some (.two .add true (.imm 1) (.absolute 0x200)) := by decide
